@@ -566,21 +566,16 @@ func (t *Terminal) handleKey(key rune) (line []string, ok bool) {
 		t.advanceCursor(visualLength(t.prompt))
 		t.setLine(t.line, t.pos)
 	case keyEnter:
-		strline := strings.TrimSpace(string(t.line))
+		// split the input into the queries terminated by ; (a ; inside a
+		// quoted literal does not terminate anything)
+		stmts, rest := splitStatements(t.line)
 		// if the last thing entered was a query terminator
-		if len(strline) == 0 || strline[len(strline)-1:] == ";" {
+		if len(strings.TrimSpace(string(rest))) == 0 {
 			// not sure what this is for
 			t.moveCursorToPos(len(t.line))
 			t.queue([]rune("\r\n"))
 
-			// split string until queries terminated by ;
-			begin := 0
-			for cur := 0; cur < len(t.line); cur++ {
-				if t.line[cur] == 59 {
-					line = append(line, strings.TrimSpace(string(t.line[begin:cur+1])))
-					begin = cur + 1
-				}
-			}
+			line = stmts
 
 			ok = true
 			t.line = t.line[:0]
@@ -623,6 +618,33 @@ func (t *Terminal) handleKey(key rune) (line []string, ok bool) {
 		t.addKeyToLine(key)
 	}
 	return
+}
+
+// splitStatements splits line after every ; that is outside a quoted literal
+// ('...', "..." or `...`; inside the first two a backslash escapes the next
+// character, as in the SQL scanner). rest is what follows the last such ;.
+func splitStatements(line []rune) (stmts []string, rest []rune) {
+	begin := 0
+	var quote rune // 0 outside a literal, else the opening quote
+	escaped := false
+	for cur, r := range line {
+		switch {
+		case escaped:
+			escaped = false
+		case quote != 0:
+			if r == '\\' && quote != '`' {
+				escaped = true
+			} else if r == quote {
+				quote = 0
+			}
+		case r == '\'' || r == '"' || r == '`':
+			quote = r
+		case r == ';':
+			stmts = append(stmts, strings.TrimSpace(string(line[begin:cur+1])))
+			begin = cur + 1
+		}
+	}
+	return stmts, line[begin:]
 }
 
 // addKeyToLine inserts the given key at the current position in the current
